@@ -10,9 +10,10 @@ EVID = os.path.join(VERIF, "evidence")
 REPLAYS = os.path.join(EVID, "replays")
 DRIVER = os.path.join(LEAN, ".lake", "build", "bin", "driver")
 HARNESS = os.path.join(BUILD, "harness")
+EMITTER = os.path.join(BUILD, "emitter")
 
 GOENV = dict(os.environ, GOFLAGS="-mod=mod", GOPROXY="off", GOSUMDB="off", GOTOOLCHAIN="local",
-             CGO_ENABLED=os.environ.get("CGO_ENABLED", "0"))
+             CGO_ENABLED=os.environ.get("CGO_ENABLED", "0"), VERIF_EMITTER=os.path.join(BUILD, "emitter"))
 
 ALLOWED_AXIOMS = {"propext", "Classical.choice", "Quot.sound"}
 FORBIDDEN = re.compile(r"\b(sorry|admit|native_decide|bv_decide|implemented_by|unsafe)\b|^\s*axiom\s|maxHeartbeats\s+0")
@@ -53,6 +54,8 @@ def build_go(log):
     with Lock("go"):
         t = time.time()
         rc, out = sh(["go", "build", "-o", HARNESS, "./cmd/harness"], cwd=GOH, env=GOENV, timeout=600)
+        if rc == 0:
+            rc, out = sh(["go", "build", "-o", EMITTER, "./cmd/emitter"], cwd=GOH, env=GOENV, timeout=600)
         log.append("go build harness: rc=%d %.1fs" % (rc, time.time() - t))
         if rc != 0:
             log.append(out[-4000:])
